@@ -456,6 +456,10 @@ def correspondence(ctx):
             res.samples.append({'history': r['i'], 'event': h['events'][pt['n']], 'fault': pt,
                                 'job_status': r['status'], 'ops': r['ops'], 'interrupted_changes': r['kinds'],
                                 'redelivered': r['redelivered'], 'final_same': r['final_same']})
+    # the git rules the all-or-none argument rests on (`--atomic` = all or nothing also when one ref is refused,
+    # a plain push = ref by ref, `--prune`), against Bert-E's git layer on real git: harness/gittie.py
+    from . import gittie
+    gittie.run(ctx, res, (16 if quick else 400) * ctx.scale, oracles=('atomic',))
     res.extra['histories'] = len(hists)
     res.extra['fault_points'] = len(outs)
     res.extra['phase_a_s'] = round(t1 - t0, 1)
@@ -466,6 +470,10 @@ def correspondence(ctx):
 
 def replay(ctx, payload):
     """re-run one recorded fault point (or a whole history's fault points)"""
+    from . import gittie
+    g = gittie.replay_input(payload)
+    if g is not None:
+        return gittie.replay(ctx, Result(), g, oracles=('atomic',))
     f = payload['failure'] if 'failure' in payload else payload
     inp = f['input']
     res = Result()
